@@ -47,7 +47,11 @@ def check_reject(text, models=None):
         p.parse()
     except Exception:  # noqa: BLE001  (the property demands an error, not a class)
         return []
-    got = decobs.tables(p)
+    # parse() returned: that alone is the violation ("makes parsing fail"); the tables are only shown as detail
+    try:
+        got = decobs.tables(p)
+    except Exception as e:  # noqa: BLE001
+        got = f"<tables not readable afterwards: {type(e).__name__}: {e!s:.100}>"
     return [("unknown-model-accepted", f"registered={models}: text with an undefined model word was accepted as {got}\n{text}")]
 
 
@@ -73,21 +77,80 @@ def run_instance_history(hist):
             if reg:
                 p.load_additional_decay_models(*reg)
             p.parse()
-            tab = decobs.table_of(p, "mth")
             accepted = True
         except Exception:  # noqa: BLE001
             accepted = False
+        tab = None
+        if accepted:
+            try:
+                tab = decobs.table_of(p, "mth")
+            except Exception as e:  # noqa: BLE001
+                tab = f"<table not readable: {type(e).__name__}>"
         if step == len(hist) - 1:
             if accepted and not should:
                 fails.append(("unknown-model-accepted@history", f"instances {[(REG_SETS[a], WORDS[b]) for a, b in hist]}: the last parser registered {reg} but accepts model word {word!r}: {tab}"))
             elif not accepted and should:
                 fails.append(("rejected@history", f"instances {[(REG_SETS[a], WORDS[b]) for a, b in hist]}: the last parser registered {reg} but rejects {word!r}"))
-            elif accepted and tab[1][3] != ("SVS" if word in aliases else word):
-                fails.append(("table-model@history", f"instances {[(REG_SETS[a], WORDS[b]) for a, b in hist]}: model reported {tab[1][3]!r} instead of {word!r}"))
+            elif accepted and (isinstance(tab, str) or tab[1][3] != ("SVS" if word in aliases else word)):
+                fails.append(("table-model@history", f"instances {[(REG_SETS[a], WORDS[b]) for a, b in hist]}: model reported {tab if isinstance(tab, str) else tab[1][3]!r} instead of {word!r}"))
     return {"canon": ("instances", len(fails) > 0), "fails": fails, "enabled": INSTANCE_OPS, "outcome": "F" if fails else "ok"}
 
 
+# ---- sequences of calls on ONE parser instance: a name registered before a parse() is accepted by that parse() ----
+CALL_OPS = ["load:MYGEN", "load:OTHERGEN", "load:MYGEN_V2,MYGEN", "grammar", "grammar_info", "parse"]
+CALL_WORDS = ["MYGEN", "OTHERGEN", "MYGEN_V2", "PHSP", "SVS"]
+
+
+def run_calls(word, ops):
+    """ops (indices into CALL_OPS) are applied to one parser of a text whose second line uses `word` as its model,
+    then parse() is called. Failed intermediate parses are part of the history (their error is swallowed)."""
+    text = f"Decay mth\n0.5 q1 q2 PHSP;\n1.0 q1 q2 {word};\nEnddecay\n"
+    p = decobs.DecFileParser.from_string(text)
+    registered = set()
+    for o in ops:
+        op = CALL_OPS[o]
+        if op.startswith("load:"):
+            names = op[5:].split(",")
+            p.load_additional_decay_models(*names)
+            registered.update(names)
+        elif op == "grammar":
+            p.grammar()
+        elif op == "grammar_info":
+            p.grammar_info()
+        else:
+            try:
+                p.parse()
+            except Exception:  # noqa: BLE001
+                pass
+    should = word in MODELS or word in registered
+    hist = [CALL_OPS[o] for o in ops] + ["parse"]
+    try:
+        p.parse()
+    except Exception as e:  # noqa: BLE001
+        return [("registered-name-rejected@calls", f"model word {word!r}, calls {hist}: the last parse() raised {type(e).__name__}: {str(e)[:160]}")] if should else []
+    if not should:
+        return [("unknown-model-accepted@calls", f"model word {word!r}, calls {hist}: never registered, but the last parse() accepted it")]
+    try:
+        tab = decobs.table_of(p, "mth")
+        ok = [ln[3] for ln in tab] == ["PHSP", word] and [list(ln[1]) for ln in tab] == [["q1", "q2"], ["q1", "q2"]]
+    except Exception as e:  # noqa: BLE001
+        tab, ok = f"<table not readable: {type(e).__name__}: {e!s:.100}>", False
+    return [] if ok else [("table-model@calls", f"model word {word!r}, calls {hist}: table reported as {tab}")]
+
+
+def work_calls(items):
+    fails, outs = [], set()
+    for w, ops in items:
+        f = run_calls(CALL_WORDS[w], ops)
+        for sig, d in f:
+            fails.append(("calls", {"word": w, "ops": list(ops)}, sig, d, len(ops)))
+        outs.add("F" if f else short_hash([w, sorted(set(ops))]))
+    return {"fails": fails, "outcomes": outs, "traces": len(items)}
+
+
 def exec_case(kind, payload):
+    if kind == "calls":
+        return run_calls(CALL_WORDS[payload["word"]], payload["ops"])
     if kind == "instances":
         from mc.core import run_forked
         return run_forked(run_instance_history, tuple(tuple(o) for o in payload["history"]))["fails"]
@@ -178,6 +241,13 @@ def run(ctx):
     depth = 3 if ctx.thorough else 2
     bfs(ctx, "parser-instances-in-one-process", run_instance_history, depth, depth, "instances",
         payload_of=lambda h: {"history": [list(o) for o in h]}, chunk=16, isolate=True)
+    import itertools
+    cdepth = 4 if ctx.thorough else 3
+    seqs = [(w, ops) for n in range(cdepth + 1) for ops in itertools.product(range(len(CALL_OPS)), repeat=n) for w in range(len(CALL_WORDS))]
+    ctx.log(f"{len(seqs)} call sequences (<= {cdepth} calls of {CALL_OPS} before the last parse, x {len(CALL_WORDS)} model words) on one parser")
+    run_tasks(ctx, work_calls, [seqs[i:i + 40] for i in range(0, len(seqs), 40)])
+    ctx.count(states=len(seqs), transitions=sum(len(o) + 1 for _w, o in seqs))
+    ctx.part("call-sequences-on-one-parser", sequences=len(seqs), max_calls=cdepth, ops=CALL_OPS, words=CALL_WORDS, complete=True)
     items, counts = build(ctx)
     ctx.log(f"cases: {counts}")
     ctx.sample({"kind": items[1][0], "text": decmodel.render(items[1][1]["ast"])})
